@@ -179,6 +179,12 @@ class C17(fw.Prop):
             stream = self.msg(rng.choice(B), rng.choice(B), payload, rng.choice([1, 1, 0, 2])) + rng.choice([b"", b"\x00\x01"])
             sched = [rng.choice([1, 2, 3, 7, 8, 9, 100, 1460, 70000]) for _ in range(rng.randint(0, 60))]
             yield mk({"op": "recv", "stream": stream.hex(), "sched": sched, "tag": "random-splits"})
+        # long messages delivered one byte per read (thousands of reads for one message), and in small irregular pieces
+        for L in ([1200, 5000, 20000, 65535] if deep else [1200, 5000]):
+            payload = bytes(rng.getrandbits(8) for _ in range(L))
+            stream = self.msg(1, 16, payload) + self.msg(1, 16, b"\xc4\x01")
+            yield mk({"op": "recv", "stream": stream.hex(), "sched": [1] * (L + 8), "tag": "one-byte-reads-long"})
+            yield mk({"op": "recv", "stream": stream.hex(), "sched": [rng.choice([1, 1, 2, 3]) for _ in range(L)], "tag": "small-reads-long"})
         # streams that end early
         for _ in range(200 if deep else 30):
             L = rng.randint(1, 40)
